@@ -41,6 +41,7 @@ def _load(prop):
     importlib.import_module('contracts.personas')     # representation / history independence (bounded), several properties
     importlib.import_module('contracts.fuzz')         # state-reconstruction oracle over random histories (bounded)
     importlib.import_module('contracts.sizes')        # the same laws at scale: inputs that cross size thresholds (bounded)
+    importlib.import_module('contracts.aliasing')     # the same object in two roles: aliased arguments (bounded)
     for extra in filter(None, os.environ.get('VERIF_EXTRA', '').split(',')):
         importlib.import_module(extra)
     return registry.for_property(prop), mod
